@@ -591,6 +591,14 @@ func (fa *funcAn) chanKey(v ssa.Value) string {
 			}
 		}
 	}
+	// a captured parameter of the enclosing function
+	if p, ok := an.Origin(v).(*ssa.Parameter); ok && fa.fn.Parent() != nil && p.Parent() == fa.fn.Parent() {
+		for i, q := range p.Parent().Params {
+			if q == p {
+				return ctxSync(fa.ctx.params, -(i + 1))
+			}
+		}
+	}
 	return ""
 }
 
@@ -1442,6 +1450,15 @@ func (fa *funcAn) calleeCtx(st lstate, call ssa.CallInstruction, t target) ctxKe
 						ps = append(ps, fmt.Sprintf("%d=@%s.%s", i, tt, ff))
 					}
 				}
+			}
+		}
+	}
+	// a function literal of this function called here (deferred, or called at once): the sync objects this context binds to
+	// this function's parameters travel with it, under the negative index of the enclosing function's parameter (see spawn)
+	if t.fn.Parent() == fa.fn {
+		for i := range fa.fn.Params {
+			if tf := ctxSync(fa.ctx.params, i); tf != "" {
+				ps = append(ps, fmt.Sprintf("%d=@%s", -(i+1), tf))
 			}
 		}
 	}
